@@ -32,6 +32,8 @@ struct Flight {
 	locked: bool,
 	/// late-locked send (inputs are selected and reserved inside finalize)
 	late: bool,
+	/// the account the send spends from
+	src_parent: u64,
 }
 
 struct Hist {
@@ -48,6 +50,10 @@ struct Hist {
 	/// scan of the chain can find for that seed
 	known: [BTreeMap<String, ((u64, u64), u64, bool)>; 2],
 	restores: u64,
+	/// set by a directed episode: the next init_send is (not) late-locked, uses all outputs, small amount
+	force_late: Option<bool>,
+	/// set by a directed episode: the next cancel names this slate
+	force_cancel: Option<Uuid>,
 }
 
 fn acct_name(a: u64) -> Option<&'static str> {
@@ -378,7 +384,9 @@ impl Hist {
 			4 | 5 => self.p.range(1, 30_000_000_000),
 			_ => self.p.below(spendable.max(2) / 2).max(1),
 		};
-		let late = self.p.chance(1, 6);
+		let forced = self.force_late.take();
+		let late = forced.unwrap_or_else(|| self.p.chance(1, 6));
+		let amount = if forced == Some(true) { self.p.range(1, 5_000_000_000) } else { amount };
 		let args = InitTxArgs {
 			src_acct_name: src.and_then(acct_name).map(|s| s.to_owned()),
 			amount,
@@ -386,7 +394,7 @@ impl Hist {
 			minimum_confirmations: *self.p.pick(&[0u64, 1, 1, 1, 2, 3]),
 			max_outputs: *self.p.pick(&[500u32, 500, 500, 2, 1]),
 			num_change_outputs: *self.p.pick(&[1u32, 1, 1, 2, 3, 0]),
-			selection_strategy_is_use_all: self.p.coin(),
+			selection_strategy_is_use_all: forced == Some(true) || self.p.coin(),
 			ttl_blocks: if self.p.chance(1, 4) {
 				Some(self.p.range(1, 4))
 			} else {
@@ -415,6 +423,7 @@ impl Hist {
 				payer: None,
 				locked: false,
 				late,
+				src_parent: parent,
 			});
 		}
 		let aif = args.amount_includes_fee.unwrap_or(false);
@@ -476,6 +485,7 @@ impl Hist {
 				payer: None,
 				locked: false,
 				late: false,
+				src_parent: 0,
 			});
 		}
 		self.record(
@@ -759,6 +769,7 @@ impl Hist {
 	fn cancel(&mut self, i: usize) {
 		// by log id, by slate id of a flight, or something that does not exist
 		let (id, slate): (Option<u32>, Option<Uuid>) = match self.p.below(5) {
+			_ if self.force_cancel.is_some() => (None, self.force_cancel.take()),
 			0 | 1 => {
 				let n = self.s.with(i, |b, _| b.tx_log_iter().count()) as u64;
 				(Some(self.p.below(n + 2) as u32), None)
@@ -864,6 +875,92 @@ impl Hist {
 		self.refresh(r_i, all);
 		let all2 = self.p.coin();
 		self.refresh(sender, all2);
+	}
+
+	/// Directed loss and recovery: the wallet is restored from its recovery phrase, looks at the
+	/// chain, then starts a send over the restored outputs, reserves them and cancels it again.
+	fn restore_episode(&mut self) {
+		let i = self.p.below(2) as usize;
+		self.restore(i);
+		let all = self.p.coin();
+		self.refresh(i, all);
+		let before = self.flights.len();
+		self.force_late = Some(false);
+		self.init_send(i);
+		self.force_late = None;
+		if self.flights.len() == before {
+			return;
+		}
+		let f = self.flights.len() - 1;
+		self.lock(f);
+		if self.p.chance(2, 3) {
+			// (the send's account may not be the active one: switch to it, as a user would)
+			let src = self.flights[f].src_parent;
+			if self.active(i) != src {
+				self.set_active(i, src);
+			}
+			self.force_cancel = Some(self.flights[f].id);
+			self.cancel(i);
+			self.force_cancel = None;
+		}
+	}
+
+	/// Directed late lock: a send is initiated late-locked over all outputs of the account (its
+	/// fee is fixed for that many inputs) and answered; before it is finalized another send of
+	/// the same wallet reserves some of those outputs — so the selection redone at finalization
+	/// differs from the one the fee was fixed for.
+	fn late_lock_episode(&mut self) {
+		let sender = self.p.below(2) as usize;
+		let before = self.flights.len();
+		self.force_late = Some(true);
+		self.init_send(sender);
+		self.force_late = None;
+		if self.flights.len() == before {
+			return;
+		}
+		let f = self.flights.len() - 1;
+		let s1 = self.flights[f].s1.clone();
+		let num = self.flights[f].num;
+		let r_i = 1 - sender;
+		let r = guarded(|| self.s.with(r_i, |b, m| foreign::receive_tx(b, m, &s1, None, false)));
+		let rc = rc_of(&r);
+		if let Ok(Ok(s2)) = &r {
+			self.flights[f].s2 = Some(s2.clone());
+		}
+		self.record(
+			r_i,
+			json!({"k": "receive", "slate": num, "amount": s1.amount.to_string(), "ttl": s1.ttl_cutoff_height,
+				"dest": null, "crypto_ok": true}),
+			rc.clone(),
+			json!({"foreign": true, "reply_participants": if rc == vec![0] { 1 } else { -1 }, "tampered": false}),
+		);
+		if rc != vec![0] {
+			return;
+		}
+		// a second send reserves part of the account's outputs (or a block adds one) in between
+		if self.p.chance(3, 4) {
+			let before2 = self.flights.len();
+			self.force_late = Some(false);
+			self.init_send(sender);
+			self.force_late = None;
+			if self.flights.len() > before2 {
+				let g = self.flights.len() - 1;
+				self.lock(g);
+			}
+		} else {
+			self.mine(sender, false);
+			self.mine(1 - sender, false);
+			self.mine(1 - sender, false);
+			self.mine(1 - sender, false);
+		}
+		self.finalize(f);
+		if self.flights[f].fin.is_some() {
+			self.post(f);
+			let miner = self.p.below(2) as usize;
+			self.mine(miner, true);
+			let all = self.p.coin();
+			self.refresh(sender, all);
+		}
 	}
 
 	/// Directed invoice: issued, paid (one time in six by the issuing wallet itself), reserved,
@@ -1110,10 +1207,11 @@ impl Hist {
 		} else if in_band(w_episode) {
 			self.reorg_episode();
 		} else if in_band(w_pay) {
-			if self.p.chance(1, 4) {
-				self.invoice_episode();
-			} else {
-				self.pay_episode();
+			match self.p.below(7) {
+				0 => self.invoice_episode(),
+				1 => self.late_lock_episode(),
+				2 => self.restore_episode(),
+				_ => self.pay_episode(),
 			}
 		} else if in_band(w_restore) {
 			self.restore(i);
@@ -1161,6 +1259,8 @@ fn main() {
 			unreserved_spend: [false, false],
 			known: [BTreeMap::new(), BTreeMap::new()],
 			restores: 0,
+			force_late: None,
+			force_cancel: None,
 		};
 		// a funded start (modelled as coinbase ops): the same number of blocks to each wallet, in
 		// half of the histories also to the second account of each wallet (so that per-account
